@@ -391,6 +391,13 @@ def shard_workers(seed: int, n_cases: int):
                 col.case(classes=["workers", f"n_jobs={nj}"], nontrivial=f"workers:{k + seed}:{nj}", sample=dict(model=cfg, n_jobs=nj, n_ind=len(ref)))
         except gen.InitRejected as e:
             col.exclude(str(e))
+    # joblib keeps its (loky) worker processes alive for minutes: stop them so that this shard's process can exit at once
+    try:
+        from joblib.externals.loky import get_reusable_executor
+
+        get_reusable_executor().shutdown(wait=True, kill_workers=True)
+    except Exception:
+        pass
     return col
 
 
